@@ -26,6 +26,13 @@ pub enum Op {
     /// peer j closes its connection after everything it has written (not REQ): a recv that
     /// meets the end of that stream may itself be abandoned afterwards
     PeerEnd(usize),
+    /// peer j (fixed identity; not REQ) comes back on a fresh connection under the same
+    /// identity while its old connection is still open - only when everything it has delivered
+    /// so far are whole messages that recv has returned. The rest of its script arrives on the
+    /// fresh connection. An abandoned recv just before must make no difference.
+    Rejoin(usize),
+    /// deliver peer j's stream up to the end of its next message
+    DeliverMsg(usize),
 }
 
 #[derive(Debug, Clone, Serialize, Deserialize, PartialEq, Eq, Hash)]
@@ -55,13 +62,21 @@ pub fn cancel_outcome(c: &CancelCase) -> Outcome {
             let mut ids: Vec<Vec<u8>> = vec![];
             let mut expect: Vec<Vec<Frames>> = vec![];
             let mut msg_ends: Vec<Vec<usize>> = vec![];
+            let has_rejoin = kind != Kind::Req && c.ops.iter().any(|o| matches!(o, Op::Rejoin(_)));
+            let mut hs_len: Vec<usize> = vec![];
+            // encoded messages per peer (to move the undelivered rest to a fresh connection)
+            let mut encoded: Vec<Vec<Vec<u8>>> = vec![];
+            let mut old_links: Vec<Link> = vec![];
             // REQ: one peer only; replies are supplied one per request
             let n_peers = if kind == Kind::Req { 1 } else { c.peers.len().max(1) };
             for pi in 0..n_peers {
                 let l = sim.link();
                 // every other case: the peers announce an empty Identity (libzmq's default), which
                 // must not make them share a registration
-                l.raw_handshake(kind.a_compatible_peer(), if c.ops.len() % 2 == 1 { Some(&[][..]) } else { None });
+                let fixed_id = format!("peer-{}", pi).into_bytes();
+                let announce: Option<&[u8]> = if has_rejoin { Some(&fixed_id[..]) } else if c.ops.len() % 2 == 1 { Some(&[][..]) } else { None };
+                hs_len.push(refcodec::handshake_bytes(kind.a_compatible_peer(), announce).len());
+                l.raw_handshake(kind.a_compatible_peer(), announce);
                 let a = sim.attach(s, &l);
                 match sim.run(a).await {
                     Ok(Some(Out::Attach(Ok(id)))) => ids.push(id),
@@ -72,6 +87,7 @@ pub fn cancel_outcome(c: &CancelCase) -> Outcome {
                 }
                 let mut ex = vec![];
                 let mut ends = vec![];
+                let mut encs: Vec<Vec<u8>> = vec![];
                 let mut total = 0;
                 let script = c.peers.get(pi).cloned().unwrap_or_default();
                 for (seq, lens) in script.iter().enumerate() {
@@ -79,6 +95,7 @@ pub fn cancel_outcome(c: &CancelCase) -> Outcome {
                     let enc = refcodec::encode_message(&w);
                     total += enc.len();
                     ends.push(total);
+                    encs.push(enc.clone());
                     if kind != Kind::Req {
                         l.to_lib.deposit(&enc);
                     }
@@ -86,6 +103,7 @@ pub fn cancel_outcome(c: &CancelCase) -> Outcome {
                 }
                 expect.push(ex);
                 msg_ends.push(ends);
+                encoded.push(encs);
                 links.push(l);
             }
             let mut got: Vec<Frames> = vec![];
@@ -98,6 +116,8 @@ pub fn cancel_outcome(c: &CancelCase) -> Outcome {
             // REP: a request has been handed to the application and not been answered yet
             let mut rep_owes_reply = false;
             let mut ended = vec![false; n_peers];
+            // messages of peer j that travelled on earlier connections of it
+            let mut rejoined_base = vec![0usize; n_peers];
 
             // REQ: issue the next request (when none is outstanding) and make its reply available
             macro_rules! req_next {
@@ -183,7 +203,7 @@ pub fn cancel_outcome(c: &CancelCase) -> Outcome {
                             if !sim.done(a) {
                                 // was it polled at least once with a partially delivered message?
                                 let partial = links.iter().enumerate().any(|(j, l)| {
-                                    let hs = refcodec::handshake_bytes(kind.a_compatible_peer(), None).len();
+                                    let hs = hs_len[j];
                                     let rp = l.to_lib.read_pos().saturating_sub(hs);
                                     rp > 0 && !msg_ends[j].contains(&rp)
                                 });
@@ -201,6 +221,73 @@ pub fn cancel_outcome(c: &CancelCase) -> Outcome {
                                 collect!();
                             }
                         }
+                    }
+                    Op::DeliverMsg(j) => {
+                        let j = *j % links.len();
+                        let total = msg_ends[j].last().copied().unwrap_or(0);
+                        let off = total - links[j].to_lib.undelivered().min(total);
+                        if let Some(e) = msg_ends[j].iter().find(|e| **e > off) {
+                            links[j].to_lib.deliver(*e - off);
+                        }
+                    }
+                    Op::Rejoin(j) => {
+                        if !has_rejoin {
+                            continue;
+                        }
+                        let j = *j % links.len();
+                        if ended[j] {
+                            continue;
+                        }
+                        let st_len = links[j].to_lib.harness_bytes();
+                        let _ = st_len;
+                        let delivered = hs_len[j] + msg_ends[j].last().copied().unwrap_or(0) - links[j].to_lib.undelivered();
+                        let off = delivered - hs_len[j];
+                        let k = match msg_ends[j].iter().position(|e| *e == off) {
+                            Some(i) => i + 1,
+                            None if off == 0 => 0,
+                            None => continue, // in the middle of a message: the cut would lose it
+                        };
+                        // everything delivered so far has been returned by recv
+                        let from_j = got
+                            .iter()
+                            .filter(|m| {
+                                let body: Frames = if kind == Kind::Router { m.get(1..).map(|x| x.to_vec()).unwrap_or_default() } else { (*m).clone() };
+                                expect[j].contains(&body)
+                            })
+                            .count();
+                        if from_j != rejoined_base[j] + k {
+                            continue;
+                        }
+                        let fixed_id = format!("peer-{}", j).into_bytes();
+                        let nl = sim.link();
+                        nl.raw_handshake(kind.a_compatible_peer(), Some(&fixed_id));
+                        let a = sim.attach(s, &nl);
+                        match sim.run(a).await {
+                            Ok(Some(Out::Attach(Ok(_)))) => {}
+                            other => {
+                                fail!(f, format!("C14/{}/returning-peer-not-admitted", who), "{:?}", other);
+                                return (f, classes);
+                            }
+                        }
+                        // the rest of the script travels on the fresh connection
+                        let rest: Vec<Vec<u8>> = encoded[j].split_off(k);
+                        let mut ends = vec![];
+                        let mut total = 0;
+                        for e in &rest {
+                            nl.to_lib.deposit(e);
+                            total += e.len();
+                            ends.push(total);
+                        }
+                        encoded[j] = rest;
+                        msg_ends[j] = ends;
+                        rejoined_base[j] += k;
+                        let old = std::mem::replace(&mut links[j], nl);
+                        old_links.push(old);
+                        classes.push("peer-comes-back-under-its-identity".into());
+                        if recv.is_none() && classes.iter().any(|c| c == "cancel-after-poll") {
+                            classes.push("peer-comes-back-after-an-abandoned-recv".into());
+                        }
+                        collect!();
                     }
                     Op::PeerEnd(j) => {
                         if kind != Kind::Req && links.len() >= 2 {
@@ -383,14 +470,17 @@ fn gen_cancel(s: &mut Src<'_>) -> CancelCase {
         })
         .collect();
     let n = if long_run { s.range(60, 200) } else { s.range(5, 60) };
+    let with_rejoin = kind != Kind::Req && s.chance(1, 4);
     let ops = (0..n)
-        .map(|_| match s.weighted(&[6, 6, 3, 2, 1, 1]) {
+        .map(|_| match s.weighted(&[6, 6, 3, 2, 1, 1, if with_rejoin { 2 } else { 0 }, if with_rejoin { 4 } else { 1 }]) {
             0 => Op::Deliver(s.below(np), if long_run { s.pick(&[0usize, 0, 40, 9]) } else { s.pick(&[1usize, 1, 2, 3, 9, 40, 0]) }),
             1 => Op::Poll(s.range(1, 3)),
             2 => Op::Cancel,
             3 => Op::TrySend,
             4 => Op::Start,
-            _ => Op::PeerEnd(s.below(3)),
+            5 => Op::PeerEnd(s.below(3)),
+            6 => Op::Rejoin(s.below(np)),
+            _ => Op::DeliverMsg(s.below(np)),
         })
         .collect();
     CancelCase { kind, peers, ops }
@@ -446,6 +536,40 @@ pub fn run(ctx: &Ctx) -> (Report, PropertyMeta) {
             cases.push(CancelCase { kind, peers, ops });
         }
     }
+    // a peer comes back under its identity: with / without an abandoned recv just before, the
+    // recv polled 1..3 times, after 0..2 of its 4 messages, next to a bystander
+    for kind in KINDS {
+        if kind == Kind::Req {
+            continue;
+        }
+        let lens = if kind == Kind::XPub { vec![9usize] } else { vec![2usize, 0] };
+        for before in 0..=2usize {
+            for abandoned in [false, true] {
+                for polls in 1..=3usize {
+                    for pending_recv in [false, true] {
+                        let mut ops = vec![];
+                        for _ in 0..before {
+                            ops.push(Op::DeliverMsg(0));
+                            ops.push(Op::Poll(3));
+                        }
+                        if abandoned {
+                            ops.push(Op::Poll(polls));
+                            ops.push(Op::Cancel);
+                        }
+                        if pending_recv {
+                            ops.push(Op::Poll(polls));
+                        }
+                        ops.push(Op::Rejoin(0));
+                        ops.push(Op::DeliverMsg(0));
+                        ops.push(Op::Poll(2));
+                        ops.push(Op::DeliverMsg(1));
+                        ops.push(Op::Poll(2));
+                        cases.push(CancelCase { kind, peers: vec![vec![lens.clone(); 4], vec![lens.clone(); 2]], ops });
+                    }
+                }
+            }
+        }
+    }
     let r = run_cases(ctx, "cancel", &cases, cancel_outcome);
     report.exhaustive_parts.push(format!("7 socket types x every delivery prefix of one 3-frame message x 0..4 polls before the drop x (one or two abandoned recv calls), REQ followed by an out-of-turn send: {} cases", cases.len()));
     report.merge(r);
@@ -458,6 +582,8 @@ pub fn run(ctx: &Ctx) -> (Report, PropertyMeta) {
         crate::fuzzing::campaign(ctx, &mut report, "sim", 180);
     }
     let total = report.evaluations;
+    health_abs(&mut report, "peer-comes-back-under-its-identity", 300);
+    health_abs(&mut report, "peer-comes-back-after-an-abandoned-recv", 100);
     health(&mut report, "cancel-after-poll-with-partial-message", total, 200);
     health_abs(&mut report, "req-send-refused-after-abandoned-recv", 200);
     health(&mut report, "cancel-before-first-poll", total, 20);
